@@ -10,7 +10,7 @@ import numpy as np
 
 from mc import core
 from mc.core import Judgement, Recorder
-from mc.harness import AffineEnsemble, TableEvaluator, make_manager, make_transforms
+from mc.harness import AffineEnsemble, TableEvaluator, make_manager, make_transforms, scipy_entry_points
 
 PROPERTY = "C09"
 RULE = (
@@ -212,7 +212,7 @@ def judge_real(case: dict[str, Any]) -> Judgement:
         config["optimizer"]["parallel"] = True
     monitor = Monitor(j, mask, transforms, f"real-{method}", start)
     seen: list[int] = []
-    orig_min, orig_de = plugin.minimize, plugin.differential_evolution
+    real: dict[str, Any] = {}
 
     def wrap(fun: Any) -> Any:
         def inner(x: Any, *args: Any) -> Any:
@@ -225,25 +225,24 @@ def judge_real(case: dict[str, Any]) -> Judgement:
         kwargs["fun"] = wrap(kwargs["fun"])
         if callable(kwargs.get("jac")):
             kwargs["jac"] = wrap(kwargs["jac"])
-        result = orig_min(**kwargs)
+        result = real["minimize"](**kwargs)
         seen.append(np.asarray(result.x).shape[0])
         return result
 
     def de_wrapper(**kwargs: Any) -> Any:
         seen.append(np.asarray(kwargs["x0"]).shape[0])
         kwargs["func"] = wrap(kwargs["func"])
-        result = orig_de(**kwargs)
+        result = real["differential_evolution"](**kwargs)
         seen.append(np.asarray(result.x).shape[0])
         return result
 
-    plugin.minimize, plugin.differential_evolution = min_wrapper, de_wrapper
     try:
-        code, _, evaluator = run_plan(config, transforms, monitor, j, n_con=0 if method == "nelder-mead" else 1, start=start)
+        with scipy_entry_points(min_wrapper, de_wrapper) as entry_points:
+            real.update(entry_points)
+            code, _, evaluator = run_plan(config, transforms, monitor, j, n_con=0 if method == "nelder-mead" else 1, start=start)
     except Exception as exc:  # noqa: BLE001
         j.fail(f"real-run-raised:{type(exc).__name__}", message=str(exc)[:200], method=method)
         return j
-    finally:
-        plugin.minimize, plugin.differential_evolution = orig_min, orig_de
     if any(n != n_free for n in seen):
         j.fail("algorithm-saw-vector-of-wrong-length", observed=sorted(set(seen)), n_free=n_free, method=method)
     j.transitions = len(evaluator.calls)
